@@ -62,6 +62,10 @@ func (e EventJSONs) UntrustedEvents(roomVersion RoomVersion) []PDU {
 		default:
 			continue
 		}
+		if event == nil {
+			// a "persistable" error that came without an event
+			continue
+		}
 		events = append(events, event)
 	}
 	return events
